@@ -35,6 +35,8 @@ type mgraph struct {
 	annotated bool // sideEffects:false directory, @__PURE__, @__NO_SIDE_EFFECTS__ or pure:[...] used
 	pureOpt   bool
 	kinds     map[string]int
+
+	needsLowering bool
 }
 
 type mgen struct {
@@ -45,6 +47,8 @@ type mgen struct {
 	annot  bool
 	kinds  map[string]int
 	usedPP bool
+
+	needsLowering bool // the graph uses syntax Node cannot run natively (auto-accessors, decorators)
 }
 
 func (g *mgen) id(f *mfile) string {
@@ -465,6 +469,34 @@ func (g *mgen) stmt(f *mfile, sc *scope, allowExport bool) {
 			add("const [" + n + "] = " + iterObj(g.id(f)) + ";")
 		}
 		g.note("wrap:destructure")
+	case k >= 72 && k < 74 && !f.pure: // auto-accessors: static / instance, private, computed key, decorated (need lowering: no native run)
+		n := g.name(f, "k")
+		var body string
+		switch r.Intn(8) {
+		case 0:
+			body = "class " + n + " { static accessor x = " + g.hidden(f) + "; }"
+		case 1:
+			body = "class " + n + " { accessor x = " + g.hidden(f) + "; }" // instance: no effect until constructed
+		case 2:
+			body = "class " + n + " { static accessor #p = " + g.hidden(f) + "; }"
+		case 3:
+			body = "class " + n + " { static accessor [" + g.hidden(f) + "] = 1; }"
+		case 4:
+			body = "class " + n + " { @(" + g.hidden(f) + ", (v) => v) static accessor y = 1; }"
+		case 5:
+			body = "class " + n + " { static accessor a = 1; static accessor b = " + g.hidden(f) + "; static c = 2; }"
+		case 6:
+			body = "class " + n + " { accessor [" + g.hidden(f) + "] = 1; static accessor z = [1, 2]; }"
+		default:
+			body = "const " + g.name(f, "h") + " = class { static accessor x = " + g.hidden(f) + "; };"
+		}
+		add(body)
+		if strings.HasPrefix(body, "class ") && r.Chance(30) {
+			sc.vals = append(sc.vals, n)
+			sc.classes = append(sc.classes, n)
+		}
+		g.needsLowering = true
+		g.note("wrap:auto-accessor")
 	case k < 74: // class declarations
 		n := g.name(f, "k")
 		id := g.id(f)
@@ -631,6 +663,7 @@ func (g *mgen) Graph() *mgraph {
 	r := g.r
 	g.kinds = map[string]int{}
 	g.usedPP = false
+	g.needsLowering = false
 	n := r.Range(1, 5)
 	mg := &mgraph{kinds: g.kinds}
 	for i := 0; i < n; i++ {
@@ -783,6 +816,7 @@ func (g *mgen) Graph() *mgraph {
 		f.exports = ex
 		f.lines = append(head, f.lines...)
 	}
+	mg.needsLowering = g.needsLowering
 	if g.usedPP {
 		mg.pureOpt = true
 		mg.annotated = true
